@@ -31,7 +31,33 @@ def operand(rng, w, sym, kind, x=None, kinds=("D", "F", "int")):
         e, _ = enc_amount(rng, x, kinds + ("SD",) if False else kinds)
         return e, ("n", F(x))
     e, _ = enc_amount(rng, x, kinds)
-    return derived(rng, Q(e, sym), sym), ("q", stored(w, x, sym), sym)
+    return derived(rng, spelled(rng, e, x, sym), sym), \
+        ("q", stored(w, x, sym), sym)
+
+
+def spelled(rng, e, x, sym, p=0.25):
+    """The quantity x sym in one of the spellings the API offers besides
+    Quantity(amount, unit): amount * unit, unit * amount, the typed
+    constructor, and amount-and-symbol text through the generic factory or
+    the unit's own type (text only where x has an exact textual form)."""
+    if rng.random() >= p:
+        return Q(e, sym)
+    k = rng.choice(["mul", "rmul", "typed", "text", "typed-text"])
+    if e[0] in ("s", "SD") and k in ("mul", "rmul"):
+        k = "typed"         # str * unit is no multiplication
+    if k == "mul":
+        return OP("*", e, U(sym))
+    if k == "rmul":
+        return OP("*", U(sym), e)
+    typed = ["a", U(sym), "qty_cls"]
+    if k == "typed":
+        return ["c", typed, [e, U(sym)]]
+    x = F(x)
+    txt = dec_str(x)
+    if txt is None:
+        txt = "%d/%d" % (x.numerator, x.denominator)
+    fac = ["g", "quantity:Quantity"] if k == "text" else typed
+    return ["c", fac, [["s", "%s %s" % (txt, sym)]]]
 
 
 DERIVATIONS = ("neg-neg", "pos", "mul-one", "rmul-one", "div-one",
